@@ -2,6 +2,8 @@ package main
 
 import (
 	"bufio"
+	"sync"
+	"sync/atomic"
 	"encoding/json"
 	"flag"
 	"fmt"
@@ -235,6 +237,14 @@ func (g *gen) tx() *Tx {
 	return tx
 }
 
+type scenario struct {
+	pre    *Pre
+	txs    []*Tx
+	noSalt bool
+	events []*Step
+	herr   string
+}
+
 func cmdRandom(args []string) {
 	fs := flag.NewFlagSet("random", flag.ExitOnError)
 	seed := fs.Int64("seed", 1, "")
@@ -244,63 +254,94 @@ func cmdRandom(args []string) {
 	maxTx := fs.Int("txs", 3, "transactions per scenario")
 	out := fs.String("out", "", "trace ndjson")
 	minconv := fs.Int64("minconv", 2000000, "")
+	workers := fs.Int("workers", 8, "")
 	fs.Parse(args)
 	setup(*minconv)
+	r := rand.New(rand.NewSource(*seed))
+	// the programs depend on the seed only; they are executed in parallel and logged in order
+	scs := make([]*scenario, *n)
+	for sc := 0; sc < *n; sc++ {
+		g := &gen{r: r, maxDepth: *depth, maxOps: *maxOps, minconv: *minconv,
+			accts: []string{"E1", "E2", "E3", "K1", "K2", "K3", "Z", "F", "Q"}, hosts: map[string]bool{"K1": true, "K2": true, "K3": true}}
+		s := &scenario{pre: g.pre(), noSalt: r.Intn(10) == 0}
+		for t := 0; t < 1+r.Intn(*maxTx); t++ {
+			s.txs = append(s.txs, g.tx())
+		}
+		scs[sc] = s
+	}
+	var wg sync.WaitGroup
+	next := int64(-1)
+	for k := 0; k < *workers; k++ {
+		wg.Add(1)
+		go func() {
+			defer wg.Done()
+			for {
+				i := int(atomic.AddInt64(&next, 1))
+				if i >= len(scs) {
+					return
+				}
+				s := scs[i]
+				w := newWorld(s.pre)
+				w.noSalt = s.noSalt
+				for t, tx := range s.txs {
+					events, err := w.runTx(tx)
+					if err != nil {
+						s.herr = fmt.Sprintf("scenario %d tx %d: %v", i, t, err)
+						break
+					}
+					s.events = append(s.events, events...)
+				}
+			}
+		}()
+	}
+	wg.Wait()
 	f, err := os.Create(*out)
 	must(err)
 	bw := bufio.NewWriterSize(f, 1<<20)
 	enc := json.NewEncoder(bw)
-	r := rand.New(rand.NewSource(*seed))
 	stats := map[string]int{}
 	var harnessErrs []string
 	ntx, nev := 0, 0
-	for sc := 0; sc < *n; sc++ {
-		g := &gen{r: r, maxDepth: *depth, maxOps: *maxOps, minconv: *minconv,
-			accts: []string{"E1", "E2", "E3", "K1", "K2", "K3", "Z", "F", "Q"}, hosts: map[string]bool{"K1": true, "K2": true, "K3": true}}
-		pre := g.pre()
-		w := newWorld(pre)
-		w.noSalt = r.Intn(10) == 0
+	for sc, s := range scs {
+		pre := s.pre
 		must(enc.Encode(&Step{A: "tracereset", X: "-", Y: "-", C: map[string]interface{}{"k": "-", "scenario": sc}, Res: "-", Dev: "-", Out: []EtxView{},
 			Obs: Obs{Bal: pre.Bal, Wq: pre.Wq, Lk: pre.Lk, St: -1, Pu: -1, Ex: "init"}, Cmp: 0, Pre: pre}))
 		nev++
-		for t := 0; t < 1+r.Intn(*maxTx); t++ {
-			tx := g.tx()
-			events, err := w.runTx(tx)
-			if err != nil {
-				harnessErrs = append(harnessErrs, fmt.Sprintf("scenario %d tx %d: %v", sc, t, err))
-				break
+		if s.herr != "" {
+			harnessErrs = append(harnessErrs, s.herr)
+		}
+		for _, e := range s.events {
+			if e.A == "txbegin" || e.A == "etxstage" {
+				ntx++
 			}
-			ntx++
-			for _, e := range events {
-				if e.C == nil {
-					e.C = map[string]interface{}{"k": "-"}
-				}
-				if e.Out == nil {
-					e.Out = []EtxView{}
-				}
-				if e.Dev == "" {
-					e.Dev = "-"
-				}
-				if e.Res == "" {
-					e.Res = "-"
-				}
-				if e.Obs.Bal == nil || len(e.Obs.Bal) == 0 {
-					e.Obs = Obs{Bal: pre.Bal, Wq: pre.Wq, Lk: pre.Lk, St: -1, Pu: -1}
-				}
-				if e.Obs.Ex == "" {
-					e.Obs.Ex = "-"
-				}
-				e.Pre = nil
-				e.C["scenario"] = sc
-				must(enc.Encode(e))
-				nev++
-				stats[e.A]++
-				if e.Aon != "" && e.Aon != "ok" {
-					stats["aon:"+e.A+":"+e.Aon]++
-				}
-				if e.Nat != "" && e.Nat != "ok" {
-					stats["nat-violation"]++
-				}
+			if e.C == nil {
+				e.C = map[string]interface{}{"k": "-"}
+			}
+			if e.Out == nil {
+				e.Out = []EtxView{}
+			}
+			if e.Dev == "" {
+				e.Dev = "-"
+			}
+			if e.Res == "" {
+				e.Res = "-"
+			}
+			if e.Obs.Bal == nil || len(e.Obs.Bal) == 0 {
+				e.Obs = Obs{Bal: pre.Bal, Wq: pre.Wq, Lk: pre.Lk, St: -1, Pu: -1}
+			}
+			if e.Obs.Ex == "" {
+				e.Obs.Ex = "-"
+			}
+			e.Pre = nil
+			e.C["scenario"] = sc
+			must(enc.Encode(e))
+			nev++
+			stats[e.A]++
+			if e.Aon != "" && e.Aon != "ok" {
+				stats["aon:"+e.A+":"+e.Aon]++
+			}
+			if e.Nat != "" && e.Nat != "ok" {
+				stats["nat-violation"]++
 			}
 		}
 	}
